@@ -117,7 +117,9 @@ CLAIMS = {
             "release it; choosing the next entry and syncing it are proved to be one critical section under the lock, released even "
             "when the sync raises (SyncManager.do). The second sentence (threaded executions converge) is NOT claimed.",
             "Call resolution by method name (over-approximation); RLock semantics assumed; cursor bookkeeping not counted as shared state."),
-    "C16": ("exploration", "Bounded stand-in only (no contract within reach of the verifier expresses 'behaves like a reference tree for "
+    "C16": ("exploration", "One deductive lemma (Provider.connect: a different identity is refused with CloudTokenError, the provider is "
+            "left disconnected with its identity unchanged; proved for every identity the implementation may report); otherwise a "
+            "bounded stand-in (no contract within reach of the verifier expresses 'behaves like a reference tree for "
             "any call sequence' for the dict-of-everything MockFS): operation sequences on four mock flavours and the filesystem "
             "provider against a reference tree and mutual consistency of info/listing/exists/download, documented error classes, id "
             "stability, hash law for ten size classes (found D3, fixed), identity check on connect, event stream of the mock (every id that "
